@@ -29,6 +29,13 @@ T_ClosedRefuses(o, kind) ==
        [] o[i].op = "conn" -> o[i].res = "n"
        [] o[i].op = "close" -> (kind = "inproc" \/ o[i].res = "err")
        [] OTHER -> TRUE
+(* once an end has closed, the other end is not left waiting: what it receives is what was still  *)
+(* queued for it, or the error, never a timeout (a receive that timed out BEFORE the close poisons *)
+(* a socket transport's decoder and is a different matter)                                        *)
+T_CloseNoticed(o) ==
+  \A i \in TIdx(o) : (o[i].op = "recv" /\ o[i].res = "timeout") =>
+     ~\E j \in 1 .. (i - 1) : /\ o[j].op = "close" /\ o[j].res = "ok" /\ o[j].side = Oth(o[i].side)
+                              /\ ~\E m \in 1 .. (j - 1) : o[m].op = "recv" /\ o[m].side = o[i].side /\ o[m].res = "timeout"
 (* what both ends of a websocket connection report as its encryption follows the URL scheme:  *)
 (* attr(side = "ws" | "wss", res = "cli:<e>,srv:<e>")                                        *)
 DialEnc(scheme) == IF scheme = "wss" THEN "tls" ELSE "none"
